@@ -62,6 +62,13 @@ func c17Cells(tier string) []Cell {
 		}
 	}
 
+	// a negative SkipInterval (flood protection switched off): nothing is rejected, nothing overlaps
+	for _, cb := range []int{1, 3} {
+		for _, p := range [][]int{{1, 1}, {2, 1}, {1, 1, 1}} {
+			cells = append(cells, Cell{ID: c17Cell{Mode: "conc", Interval: -1, Callbacks: cb, Threads: p}.id()})
+		}
+	}
+
 	// SkipInterval near the end of the Duration range (appended: the indices of the cells above stay what they were)
 	for iv := range c17HugeIntervals {
 		for _, cb := range []int{1, 3} {
@@ -545,7 +552,12 @@ func c17Conc(cc c17Cell, env *Env) CellResult {
 			}
 		}
 
-		if cc.Callbacks > 0 {
+		if cc.Callbacks > 0 && iv < 0 {
+			// a negative interval never rejects: every call is accepted (and they still do not overlap)
+			if accepted != len(calls) {
+				bad("spacing", fmt.Sprintf("%d of %d calls accepted with a negative SkipInterval (%v): want all", accepted, len(calls), iv))
+			}
+		} else if cc.Callbacks > 0 {
 			max := 1
 			if cc.Adv == "I" {
 				max = 2
@@ -735,7 +747,7 @@ func init() {
 		ID: "C17", Title: "Invalidator runs all callbacks, at most once per SkipInterval",
 		Cells: c17Cells, Run: c17Run,
 		Rule: "(seq) BFS over sequences of {Invalidate, Invalidate whose last callback panics (caller recovers), Invalidate under an already cancelled context, SkipInterval changed on the live instance, Advance I-1ns, I, I+1ns, 1ns, Callbacks=nil, Callbacks=restored} for SkipInterval {default 15s, 1s} x callbacks {none,1,3} against the model accepted <=> now-lastAccepted >= I; " +
-			"(huge) every sequence of <=4 (5) operations over {Invalidate, Advance 1ns, Advance 40y} with SkipInterval in {MaxInt64 ns, 250y, 100y}; (conc) 2-3 threads x 1-2 Invalidate calls plus a clock thread advancing by I-1ns or I, callbacks are harness functions with a scheduling point inside, all schedules within the bound; the same with one more thread that registers a further callback under the Invalidator's own mutex (an accepted call runs the list as it is when it is accepted): " +
+			"(negative interval) the concurrent programs with SkipInterval -1s: every call accepted, none overlapping; (huge) every sequence of <=4 (5) operations over {Invalidate, Advance 1ns, Advance 40y} with SkipInterval in {MaxInt64 ns, 250y, 100y}; (conc) 2-3 threads x 1-2 Invalidate calls plus a clock thread advancing by I-1ns or I, callbacks are harness functions with a scheduling point inside, all schedules within the bound; the same with one more thread that registers a further callback under the Invalidator's own mutex (an accepted call runs the list as it is when it is accepted): " +
 			"no overlap, every accepted call runs every callback once in order before it returns, rejected calls run none and every rejection is explained by an accepted run less than SkipInterval earlier, number of accepted calls bounded by the elapsed virtual time",
 		Assumptions: []string{
 			"calls are attributed to callbacks through a context value",
